@@ -262,6 +262,13 @@ var c11Templates = []c11Tmpl{
 	{key: "sample rarefy", args: "sample rarefy -n 4 -c counts.txt -r 2 {in}", in: "nt", seeded: true},
 	{key: "mutate gaps", args: "mutate gaps -r 0.2 -n 0.5 {in}", in: "nt", seeded: true},
 	{key: "mutate snvs", args: "mutate snvs -r 0.2 {in}", in: "nt", seeded: true},
+	{key: "mutate snvs rate above 1", args: "mutate snvs -r 1.5 {in}", in: "nt", seeded: true},
+	{key: "mutate gaps rates above 1", args: "mutate gaps -r 1.5 -n 2 {in}", in: "nt", seeded: true},
+	{key: "mutate snvs rate 0", args: "mutate snvs -r 0 {in}", in: "nt", seeded: true},
+	{key: "shuffle sites all", args: "shuffle sites -r 1 --rogue 1 --rogue-file rogues.txt {in}", in: "nt", seeded: true},
+	{key: "shuffle recomb all", args: "shuffle recomb -l 1 -n 1 {in}", in: "nt", seeded: true},
+	{key: "shuffle swap all", args: "shuffle swap -r 1 {in}", in: "nt", seeded: true},
+	{key: "sample sites full length", args: "sample sites -l 1 -n 3 {in}", in: "nt", seeded: true},
 	{key: "build seqboot", args: "build seqboot -n 3 -o boot {in}", in: "nt", seeded: true},
 	{key: "build seqboot frac shuf", args: "build seqboot -n 2 -f 0.5 -S -o boot {in}", in: "nt", seeded: true},
 	{key: "build seqboot gz", args: "build seqboot -n 2 -o boot --gz {in}", in: "nt", seeded: true},
